@@ -284,7 +284,8 @@ class ProxyClient:
             try:
                 cbfunc(*args)
             except UnregisterCallback:
-                cblist.remove(cbfunc)
+                if cbfunc in cblist:  # an other callback may have unregistered it already
+                    cblist.remove(cbfunc)
             except Exception as e:
                 if cbname != 'handleError':
                     try:
